@@ -198,6 +198,11 @@ struct FrameGuard {
   ~FrameGuard() { E().ev(E_LOCALS_DTOR, f); }
 };
 
+// C11: a task<> resumes on its scheduler's context (ctx0 here) whatever context the awaited sender completed on
+void check_affinity(int f) {
+  if (E().ctx != 0) SR_FAIL("C11", "task_resumed_off_scheduler", "coroutine frame %d resumed on ctx%d after awaiting a sender that completed there; a task<> resumes on its own scheduler (ctx0)", f, E().ctx);
+}
+
 unifex::task<void> cleanup_action(int f, int k, bool awaits) {
   E().ev(E_CLEANUP_RUN, f, k);
   if (awaits) { E().ev(E_CLEANUP_LEAF, f, k); (void)co_await CoLeaf{true}; }
@@ -215,10 +220,10 @@ unifex::task<long> run_node(int n) {
     const Step st = node.steps[si];
     switch (st.kind) {
       case S_LOCAL: acc += 1; break;
-      case S_LEAF: { e.ev(E_LEAF_START, f, e.leaf_occ); long v = co_await CoLeaf{}; E().ev(E_RESUME, f, v); acc = (long)((unsigned long)acc * 31u + (unsigned long)v); break; }
+      case S_LEAF: { e.ev(E_LEAF_START, f, e.leaf_occ); long v = co_await CoLeaf{}; check_affinity(f); E().ev(E_RESUME, f, v); acc = (long)((unsigned long)acc * 31u + (unsigned long)v); break; }
       case S_TRY_LEAF: {
         long v = -3;
-        try { E().ev(E_LEAF_START, f, E().leaf_occ); v = co_await CoLeaf{}; E().ev(E_RESUME, f, v); }
+        try { E().ev(E_LEAF_START, f, E().leaf_occ); v = co_await CoLeaf{}; check_affinity(f); E().ev(E_RESUME, f, v); }
         catch (const LeafErr& x) { E().ev(E_CATCH, f, 1000000 + x.code); v = -4; }
         acc = (long)((unsigned long)acc * 31u + (unsigned long)v); break;
       }
@@ -348,6 +353,7 @@ struct RootR {
     Env& e = E(); e.root_signals++;
     if (e.root_signals > 1) { SR_FAIL(P, "task_completed_twice", "the task's receiver was completed %d times", e.root_signals); return; }
     e.root_chan = ch; e.root_val = v; e.root_err = er; e.t_root = ++e.seq;
+    if (e.ctx != 0) SR_FAIL("C11", "task_completed_off_scheduler", "the task completed its receiver on ctx%d; a task<> completes on the scheduler it was started on (ctx0)", e.ctx);
     // KNOWN FINDING task_done_late_deregistration (C04): a task<> that ends with done keeps the stop-token adapter of its awaiter subscribed on the
     // receiver's token until the operation state is destroyed.  Excluded by construction = the callback bookkeeping is not armed for done completions.
     static const bool known_done = ("," + vk::ctx().arg("known") + ",").find(",task_done_late_deregistration,") != std::string::npos;
